@@ -19,12 +19,12 @@ struct ChildOut { int status = 0; bool cfg_ok = false, ok = false; std::string e
 
 // Run the writer in a forked child with some of descriptors 0..2 closed (before or after the
 // output descriptor is created).  Result comes back through a memfd created beforehand.
-static ChildOut write_in_child(const lib::WCfg &cfg, const Bytes &D, const std::vector<lib::WOp> &ops, unsigned close_mask, bool close_before_out) {
+static ChildOut write_in_child(const lib::WCfg &cfg, const Bytes &D, const std::vector<lib::WOp> &ops, unsigned close_mask, bool close_before_out, unsigned cpu_s) {
     ChildOut co; int res = memfd_create("res", 0);
     fflush(stdout); fflush(stderr);
     pid_t pid = fork();
     if (pid == 0) {
-        struct rlimit rl = {40, 45}; setrlimit(RLIMIT_CPU, &rl);
+        struct rlimit rl = {cpu_s, cpu_s + 5}; setrlimit(RLIMIT_CPU, &rl);
         // move the result fd out of the way of 0..2
         int r2 = fcntl(res, F_DUPFD, 50); close(res);
         if (close_before_out) for (int fd = 0; fd < 3; fd++) if (close_mask & (1u << fd)) close(fd);
@@ -65,8 +65,15 @@ static ChildOut write_in_child(const lib::WCfg &cfg, const Bytes &D, const std::
 
 static void prop(Ctx &c) {
     gen::Content ct = gen::content(c, c.tier ? (3u << 20) : (1u << 20));
-    const Bytes &D = ct.data;
+    Bytes &D = ct.data;
     lib::WCfg cfg = gen::wcfg(c, D);
+    // The writer keeps every chunk in a linked index, so millions of 1-byte chunks are legitimately slow (and quadratic under
+    // ASan).  The amount of work is bounded (at most ~150k chunks per case) and the CPU limit that defines "does not terminate"
+    // grows with the expected number of chunks, so that a slow-but-finishing case is never called a hang.
+    { size_t per = cfg.chunk_max > 0 ? (size_t)cfg.chunk_max : 131072; if (!cfg.manual) per = std::min<size_t>(per, 8192); if (per < 1) per = 1;
+      size_t cap = per * 150000; if (D.size() > cap) { D.resize(cap); c.label("content-capped-for-chunk-count"); } }
+    size_t est_chunks = D.size() / std::max<size_t>(1, cfg.chunk_max > 0 ? std::min<size_t>((size_t)cfg.chunk_max, cfg.manual ? (size_t)cfg.chunk_max : 8192) : (cfg.manual ? 131072 : 8192));
+    unsigned cpu_s = 40 + (unsigned)(est_chunks / 1500);
     std::vector<lib::WOp> ops = gen::whistory(c, D.size(), c.chance(3, 4));
     std::vector<size_t> rsz = gen::rhistory(c);
     if (D.size() > 200000) for (auto &s : rsz) if (s < 64) s += 64;
@@ -74,8 +81,8 @@ static void prop(Ctx &c) {
     c.desc << "D=" << ct.str() << " cfg{" << cfg.str() << "} ops=" << gen::ops_str(ops) << " reads=" << gen::sizes_str(rsz);
     if (close_mask) c.desc << " closed_fds_mask=" << close_mask << (close_before ? "(before out)" : "(after out)");
 
-    ChildOut w = write_in_child(cfg, D, ops, close_mask, close_before);
-    if (w.hang) c.fail("write-hang", "write path did not terminate within 40 s of CPU time");
+    ChildOut w = write_in_child(cfg, D, ops, close_mask, close_before, cpu_s);
+    if (w.hang) c.fail("write-hang", "write path did not terminate within " + std::to_string(cpu_s) + " s of CPU time (about " + std::to_string(est_chunks) + " chunks expected)");
     if (w.crashed) c.fail("write-crash", "writer child died, wait status " + std::to_string(w.status));
     if (!w.cfg_ok) { c.label("cfg-refused"); return; }                 // a refused configuration is outside the property's domain
     c.label(cfg.comp == ZCK_COMP_ZSTD ? "zstd" : "none"); c.label(cfg.manual ? "manual" : "auto");
